@@ -32,6 +32,7 @@ import (
 	"github.com/nspcc-dev/neo-go/pkg/smartcontract"
 	"github.com/nspcc-dev/neo-go/pkg/smartcontract/callflag"
 	"github.com/nspcc-dev/neo-go/pkg/smartcontract/manifest"
+	"github.com/nspcc-dev/neo-go/pkg/smartcontract/nef"
 	"github.com/nspcc-dev/neo-go/pkg/smartcontract/trigger"
 	"github.com/nspcc-dev/neo-go/pkg/util"
 	"github.com/nspcc-dev/neo-go/pkg/vm/emit"
@@ -49,6 +50,8 @@ func init() {
 type c16Env struct {
 	c       *c16Chain
 	P, Z    *neotest.Contract
+	T       *neotest.Contract            // executes CALLT: 96 method tokens (6 final methods of P x 16 token flags), wildcard permission
+	TP      map[string]*neotest.Contract // CALLT callers with restricted permissions (key: JSON of the permission)
 	pub     *keys.PublicKey
 	single  neotest.SingleSigner
 	signers []transaction.Signer
@@ -178,6 +181,47 @@ func c16Setup() (env *c16Env, err error) {
 	env.P, err = c.deploy(c16ContractSpec{Name: "P", Perms: wild, Methods: pm, Events: []manifest.Event{{Name: "Ev", Parameters: []manifest.Parameter{}}}})
 	if err != nil {
 		return nil, err
+	}
+	// CALLT: a contract whose NEF carries method tokens to P's final methods, one token per (method, token call flags)
+	mkTok := func(perms []manifest.Permission, name string, flagSets []int) (*neotest.Contract, error) {
+		var toks []nef.MethodToken
+		var ms []c16Method
+		for _, fin := range c16FinalOrder {
+			for _, tf := range flagSets {
+				idx := len(toks)
+				toks = append(toks, nef.MethodToken{Hash: env.P.Hash, Method: c16Finals[fin], ParamCount: 0, HasReturn: false, CallFlag: callflag.CallFlag(tf)})
+				ms = append(ms, c16Method{Name: fmt.Sprintf("t%d", idx), Void: true, Body: c16Code(func(w *io.BinWriter) {
+					emit.Instruction(w, opcode.CALLT, []byte{byte(idx), byte(idx >> 8)})
+					emit.Opcodes(w, opcode.RET)
+				})})
+			}
+		}
+		return c.deploy(c16ContractSpec{Name: name, Perms: perms, Methods: ms, Tokens: toks})
+	}
+	all16 := make([]int, 16)
+	for i := range all16 {
+		all16[i] = i
+	}
+	if env.T, err = mkTok(wild, "T", all16); err != nil {
+		return nil, err
+	}
+	env.TP = map[string]*neotest.Contract{}
+	for i, tp := range c16TokPerms {
+		mp := manifest.NewPermission(manifest.PermissionWildcard)
+		if tp.D == "h0" {
+			mp = manifest.NewPermission(manifest.PermissionHash, env.P.Hash)
+		} else if tp.D == "h1" {
+			mp = manifest.NewPermission(manifest.PermissionHash, env.Z.Hash)
+		}
+		if tp.M != nil {
+			mp.Methods.Value = append([]string{}, tp.M...)
+		}
+		ct, err := mkTok([]manifest.Permission{*mp}, fmt.Sprintf("TP%d", i), []int{15})
+		if err != nil {
+			return nil, err
+		}
+		kb, _ := json.Marshal(tp)
+		env.TP[string(kb)] = ct
 	}
 	e := c.e
 	neo, gas := env.nat[nativenames.Neo], env.nat[nativenames.Gas]
@@ -519,6 +563,110 @@ type c16ChainIn struct {
 }
 
 var c16Finals = map[int]string{10: "lput", 11: "note", 12: "callz", 13: "slput", 14: "snote", 15: "nop"}
+var c16FinalOrder = []int{10, 11, 12, 13, 14, 15}
+
+// permissions of the restricted CALLT callers (h0 = the proxy P holding the final methods, h1 = another contract)
+var c16TokPerms = []c16Perm{{"h0", []string{"lput"}}, {"*", []string{"note", "slput"}}, {"h1", nil}, {"h0", []string{}}, {"h0", nil}}
+
+// ---------- CALLT ----------
+
+type c16CallTIn struct {
+	Flags int `json:"flags"`       // flags of the frame executing CALLT
+	TF    int `json:"token_flags"` // call flags recorded in the method token
+	Final int `json:"final"`       // 10..15
+}
+
+func c16FinalIdx(fin int) int {
+	for i, f := range c16FinalOrder {
+		if f == fin {
+			return i
+		}
+	}
+	return -1
+}
+
+func (env *c16Env) runCallT(co *caseOut, in c16CallTIn) {
+	fi := c16FinalIdx(in.Final)
+	if fi < 0 || in.TF < 0 || in.TF > 15 {
+		return
+	}
+	script := c16Code(func(w *io.BinWriter) { c16EmitCall(w, env.T.Hash, fmt.Sprintf("t%d", fi*16+in.TF), in.Flags) })
+	obs, _ := env.c.invoke(script, env.signers, env.T.Hash, 2, trigger.Application, callflag.All, false)
+	if !obs.Reached {
+		co.violation("callt", "harness: frame under test not reached: "+obs.Fault, in, obs)
+		return
+	}
+	completed := obs.State == "HALT"
+	ran, zran := false, false
+	for _, h := range obs.Callees {
+		ran = ran || h == env.P.Hash.StringLE()
+		zran = zran || h == env.Z.Hash.StringLE()
+	}
+	g := in.Flags & in.TF
+	if in.Final == 13 || in.Final == 14 {
+		g &^= 10
+	}
+	if ran && in.Flags&4 == 0 {
+		co.violation("callt", fmt.Sprintf("CALLT started the callee from a frame without AllowCall (flags %04b)", in.Flags), in, obs)
+	}
+	if obs.Wrote && g&2 == 0 {
+		co.violation("callt", fmt.Sprintf("storage changed through CALLT although frame flags & token flags = %04b", g), in, obs)
+	}
+	if obs.Notified && g&8 == 0 {
+		co.violation("callt", fmt.Sprintf("event emitted through CALLT although frame flags & token flags = %04b", g), in, obs)
+	}
+	if zran && g&4 == 0 {
+		co.violation("callt", fmt.Sprintf("the token's callee called on although frame flags & token flags = %04b", g), in, obs)
+	}
+	tag := c16Finals[in.Final]
+	switch {
+	case !ran:
+		tag += "/refused"
+	case completed:
+		tag += "/halt"
+	default:
+		tag += "/callee-fault"
+	}
+	co.add("callt", tag, ran, in, obs, fmt.Sprintf("CCallT %d %d %d %s %s %s %s %s", in.Flags, in.TF, in.Final,
+		coqBool(completed), coqBool(obs.Wrote), coqBool(obs.Notified), coqBool(ran), coqBool(zran)))
+}
+
+// CALLT from a contract with a restricted permission: the permission check of callInternal applies to tokens too
+func (env *c16Env) runCallTPerm(co *caseOut, in c16PermIn) {
+	if len(in.Ops) != 1 {
+		return
+	}
+	kb, _ := json.Marshal(in.Ops[0])
+	ct, ok := env.TP[string(kb)]
+	fi := -1
+	for i, f := range c16FinalOrder {
+		if c16Finals[f] == in.Method {
+			fi = i
+		}
+	}
+	if !ok || fi < 0 {
+		co.violation("calltperm", "harness: unknown restricted CALLT caller or method", in, nil)
+		return
+	}
+	in.Callee = c16Callee{Hash: 0, Groups: []int{}}
+	in.Safe = in.Method == "slput" || in.Method == "snote"
+	script := c16Code(func(w *io.BinWriter) { c16EmitCall(w, ct.Hash, fmt.Sprintf("t%d", fi), 15) })
+	obs, _ := env.c.invoke(script, env.signers, ct.Hash, 2, trigger.Application, callflag.All, false)
+	ran := false
+	for _, h := range obs.Callees {
+		ran = ran || h == env.P.Hash.StringLE()
+	}
+	refused := strings.Contains(obs.Fault, "disallowed method call")
+	if ran == refused {
+		co.violation("calltperm", "callee ran although the token call was refused (or neither): "+obs.Fault, in, obs)
+	}
+	tag := "refused"
+	if ran {
+		tag = "ran"
+	}
+	co.add("calltperm", tag, !in.Safe, in, c16PermOut{ran, c16F6Shape(in, ran)},
+		fmt.Sprintf("CPermCall %s %s %s%%string %s %s", coqList([]string{c16CoqPerm(in.Ops[0])}), c16CoqCallee(in.Callee), coqStr(in.Method), coqBool(in.Safe), coqBool(ran)))
+}
 
 type c16CallDesc struct {
 	method string
@@ -1171,6 +1319,14 @@ func runC16(cmd string, args []string) error {
 				var in c16PermIn
 				json.Unmarshal(x.Input, &in)
 				env.runPermCall(co, in)
+			case "callt":
+				var in c16CallTIn
+				json.Unmarshal(x.Input, &in)
+				env.runCallT(co, in)
+			case "calltperm":
+				var in c16PermIn
+				json.Unmarshal(x.Input, &in)
+				env.runCallTPerm(co, in)
 			case "permitem":
 				var in c16PermIn
 				json.Unmarshal(x.Input, &in)
@@ -1249,6 +1405,21 @@ func runC16(cmd string, args []string) error {
 						}
 					}
 				}
+			}
+		}
+	}
+	// CALLT: every frame flag set x every token flag set x every final method (1536), and the restricted callers
+	if ex && want("callt") {
+		for _, fin := range c16FinalOrder {
+			for tf := 0; tf < 16; tf++ {
+				for fl := 0; fl < 16; fl++ {
+					env.runCallT(co, c16CallTIn{Flags: fl, TF: tf, Final: fin})
+				}
+			}
+		}
+		for _, tp := range c16TokPerms {
+			for _, fin := range c16FinalOrder {
+				env.runCallTPerm(co, c16PermIn{Ops: []c16Perm{tp}, Method: c16Finals[fin]})
 			}
 		}
 	}
@@ -1399,7 +1570,7 @@ func runC16(cmd string, args []string) error {
 	co.extra["exhaustive"] = ex && *only == ""
 	if ex {
 		co.extra["x_universe"] = "sys: all system calls of the table x 16 flag sets (block-trigger calls: the node's flag set and the refused ones); native: all methods (latest hard-fork set) x 16 flag sets x {called by the entry script, called by a contract}; " +
-			"chain: all chains of length 0 and 1 (16 x 3 hop kinds x 16 x 5 finals); perm1: 6 descriptors x 5 method lists x 12 callees x 3 methods; permitem: the 30 permissions' real stack items; permstored: 30 permissions x 12 callees x 4 methods x 3 stored forms; permcall: 30 single-permission deployed callers x 3 deployed callees x 4 methods, before and after a node restart over the same LevelDB; " +
+			"chain: all chains of length 0 and 1 (16 x 3 hop kinds x 16 x 5 finals); callt: 16 frame flag sets x 16 token flag sets x 6 final methods through the CALLT opcode, and 5 restricted-permission CALLT callers x 6 methods; perm1: 6 descriptors x 5 method lists x 12 callees x 3 methods; permitem: the 30 permissions' real stack items; permstored: 30 permissions x 12 callees x 4 methods x 3 stored forms; permcall: 30 single-permission deployed callers x 3 deployed callees x 4 methods, before and after a node restart over the same LevelDB; " +
 			"thorough adds chains of length 2 over 6 flag sets and all pairs of permissions with distinct descriptors"
 	}
 	co.extra["x_witnessed"] = c16Witnessed(co)
